@@ -52,7 +52,7 @@ _RE_LINESTRING_WKT = re.compile(
 )
 
 _RE_MULTIPOINT_WKT = re.compile(
-    r'^MULTIPOINT' + _RE_ZM_STR + _RE_LINEAR_RING_STR + '$',
+    r'^MULTIPOINT' + _RE_ZM_STR + r'(?:' + _RE_LINEAR_RING_STR + r'|' + _RE_LINEAR_RINGS_STR + r')$',
     flags=re.IGNORECASE
 )
 _RE_MULTIPOLYGON_WKT = re.compile(
